@@ -342,6 +342,13 @@ theorem aeif_append (ens : List (List (P3 ℚ))) (charges : List (List ℚ)) (ra
     aeif ens charges radii w (g1 ++ g2) = aeif ens charges radii w g1 ++ aeif ens charges radii w g2 := by
   simp [aeif, indicatorField]
 
+/-- a geometry listed twice, with weights `w₁` and `w₂`, counts exactly like one listing with weight `w₁ + w₂` — every listing
+enters the weighted average with its OWN weight -/
+theorem duplicate_conformer_weights_add (w1 w2 v : ℚ) (ws vs : List ℚ) :
+    average (some (w1 :: w2 :: ws)) (v :: v :: vs) = average (some ((w1 + w2) :: ws)) (v :: vs) := by
+  simp only [average, dot, rsum]
+  congr 1 <;> ring
+
 /-- an average of indicators lies in `[0,1]` (non-negative weights with positive sum; or unweighted with
 at least one conformer). -/
 theorem aso_bounds (ens : List (List (P3 ℚ))) (radii : List ℚ) (w : Option (List ℚ)) (grid : List (P3 ℚ))
